@@ -45,7 +45,7 @@ def dd_text(sc, dd):
 
 def norm_stmt(s):
     d = dict(id=0, outs=[], iouts=[], ex=[], im=[], oo=[], val=[], hdrs=[], phony=False, restat=False, gen=False, rsp=False,
-             deps="", pool="", dd="", ddi=[], ddo=[], ddr=False, mkdd="", ver=1, rspver=1, badrspdir=False)
+             deps="", pool="", dd="", ddi=[], ddo=[], ddr=False, mkdd="", ver=1, rspver=1, badrspdir=False, trap=False)
     d.update(s)
     return d
 
@@ -58,7 +58,9 @@ def render_manifest(sc, cmd, ctl):
         if s["phony"]:
             continue
         m += "rule r%d\n" % s["id"]
-        m += "  command = %s %s e%d v%d\n" % (cmd, ctl, s["id"], s["ver"])
+        # a command that handles the signal itself is ninja's direct child (exec), as a tool started without a wrapper
+        # shell would be: ninja can only wait for the processes it started itself
+        m += "  command = %s%s %s e%d v%d%s\n" % ("exec " if s.get("trap") else "", cmd, ctl, s["id"], s["ver"], " --trap 60 $out" if s.get("trap") else "")
         m += "  description = E%d\n" % s["id"]
         if s["restat"]:
             m += "  restat = 1\n"
@@ -165,6 +167,7 @@ class Execution:
         self.srcver = {}
         self.nfile = 0
         self.announced = set()
+        self.pids = {}
         self._index()
 
     def _index(self):
@@ -357,6 +360,7 @@ class Execution:
         rbuf = {req_fd: b"", trace_fd: b""}
         deadline = time.time() + 60
         abnormal = False
+        died = False
         stdout_eof = False
         self.announced = set()
 
@@ -505,7 +509,36 @@ class Execution:
                         self.events.append({"e": "SpawnFail", "s": sid})
                 if ev["h"] == "Wait":
                     waits += 1
-                    if intr == waits:
+                    if step.get("kill", -1) == waits:
+                        # the ninja process dies (SIGKILL); its commands live on: each either finishes on its own or dies too
+                        proc.kill()
+                        proc.wait()
+                        orphans = []
+                        for r in list(running.keys()):
+                            completes = self.ch.choose(2)
+                            wrote = []
+                            if completes:
+                                send_script(r)
+                                self._wait_gone(self.pids.get(r, 0))
+                                code_, wl_ = pending_done.pop(r)
+                                for o in wl_:
+                                    try:
+                                        ns = os.stat(self.p(o)).st_mtime_ns
+                                        self.stamps.add(ns)
+                                        wrote.append({"n": o, "m": ("ns", ns)})
+                                    except FileNotFoundError:
+                                        pass
+                            else:
+                                try:
+                                    os.kill(self.pids.get(r, 0), signal.SIGKILL)
+                                except (ProcessLookupError, PermissionError):
+                                    pass
+                                self._wait_gone(self.pids.get(r, 0))
+                            orphans.append({"s": r, "completes": bool(completes), "wrote": wrote})
+                        running.clear()
+                        self.events.append({"e": "Crash", "point": "sigkill", "n": waits, "orphans": orphans})
+                        died = True
+                    elif intr == waits:
                         self.events.append({"e": "Interrupt", "run": run_ids()})
                         interrupted = True
                         proc.send_signal(getattr(signal, "SIG" + sig))
@@ -542,8 +575,8 @@ class Execution:
         if code < 0:
             code = 128 - code
         # commands killed by ninja (interrupt): reap state
-        if interrupted or running:
-            self.events.append({"e": "Abort", "killed": [{"s": r, "partial": False} for r in running]})
+        if (interrupted or running) and not died:
+            self.events.append({"e": "Abort", "killed": [{"s": r, "partial": bool(self.by_id[r].get("trap"))} for r in running]})
         text = out.decode("latin-1")
         left = -1
         if keep:
@@ -553,13 +586,29 @@ class Execution:
         os.close(req_fd)
         os.close(trace_fd)
         self.outputs.append(text)
-        if abnormal:
+        if died:
+            self.events.append({"e": "Died", "tree": self.tree(), "logs": {"e": "Logs", "blog": [], "dlog": [], "st": [1, 1], "warn": ""}})
+        elif abnormal:
             self.events.append({"e": "Abnormal", "status": -1, "tree": self.tree()})
         else:
             self.events.append({"e": "Exit", "code": code, "msg": text[-300:], "mc": msg_class(text, code), "cyc": cycle_path(text), "fifo": left,
                                 "tree": self.tree(), "logs": {"e": "Logs", "blog": [], "dlog": [], "st": [1, 1], "warn": ""}, "stdout": text})
         # kill stray helpers of an interrupted/failed run
         subprocess.run(["pkill", "-f", self.ctl], capture_output=True)
+
+    def _wait_gone(self, pid):
+        if not pid:
+            return
+        for _ in range(2000):
+            if not os.path.exists("/proc/%d" % pid):
+                return
+            try:
+                st = open("/proc/%d/stat" % pid).read().split()[2]
+                if st == "Z":
+                    return
+            except (FileNotFoundError, IndexError):
+                return
+            time.sleep(0.002)
 
     def _await_start(self, req_fd, rbuf, sid, on_start, proc):
         if sid in self.announced:
@@ -572,6 +621,7 @@ class Execution:
                 parts = line.decode().split()
                 if len(parts) >= 2 and parts[0] == "S":
                     got = int(parts[1][1:])
+                    self.pids[got] = int(parts[2]) if len(parts) > 2 else 0
                     on_start(got)
                     if got == sid:
                         return True
